@@ -20,8 +20,8 @@ import (
 
 // Op is one step of a scenario; it is replayed verbatim under every schedule.
 type Op struct {
-	Kind string `json:"k"`             // block | idle | hurry | abort | savewait
-	Raw  []byte `json:"-"`             // block bytes
+	Kind string `json:"k"`              // block | idle | hurry | abort | savewait
+	Raw  []byte `json:"-"`              // block bytes
 	Note string `json:"note,omitempty"` // what the generator intended (valid, badsig:3, dblspend, …)
 }
 
@@ -34,13 +34,14 @@ type Res struct {
 }
 
 type gen struct {
-	k     *chainkit.Kit
-	g     *vlib.Rng
-	keys  map[string]*chainkit.Key
-	klist []*chainkit.Key
-	coins []*chainkit.Coin
-	hist  map[string]int
+	k       *chainkit.Kit
+	g       *vlib.Rng
+	keys    map[string]*chainkit.Key
+	klist   []*chainkit.Key
+	coins   []*chainkit.Coin
+	hist    map[string]int
 	lastBad [][2]int // (tx index incl. coinbase, input) corrupted by the last blockTxs call
+	cheap   bool     // compressed-records scenario: mostly unsigned fan-outs so that blocks can carry > 32 new transactions
 }
 
 func newGen(k *chainkit.Kit, g *vlib.Rng) *gen {
@@ -97,6 +98,9 @@ func (ge *gen) refresh() {
 }
 
 func (ge *gen) script(kind int) []byte {
+	if ge.cheap && ge.g.Chance(1, 2) {
+		return chainkit.AnyoneScript
+	}
 	key := ge.klist[ge.g.Intn(len(ge.klist))]
 	switch kind {
 	case 0:
@@ -203,7 +207,7 @@ func (ge *gen) blockTxs(kind string, ntx, maxin int) (txs []*btc.Tx, fees uint64
 		var cs []*chainkit.Coin
 		var tx *btc.Tx
 		fee := uint64(1000 + ge.g.Intn(5000))
-		if ge.g.Chance(1, 3) {
+		if (ge.cheap && ge.g.Chance(5, 6)) || (!ge.cheap && ge.g.Chance(1, 3)) {
 			cs = ge.take(&avail, 1, false) // fan-out of an unsigned coin
 			tx = ge.spend(cs, 3+ge.g.Intn(10), fee, false)
 		} else {
